@@ -1,4 +1,13 @@
 #include "common.hpp"
+#include <type_traits>
+
+// The generators of the maps are (re)seeded here.  The statement must keep compiling when the member's qualifiers
+// change in the repository (`const`, `mutable`, ...): the qualifier is cast away, so that such a change is judged by
+// what it does to the particles / the modulation and not by a compile error of the harness.
+template <class T> static typename std::remove_const<T>::type& unconst(T& x)
+{
+    return const_cast<typename std::remove_const<T>::type&>(x);
+}
 // Implementation side of the dynrf family (C19): DynamicRFKickMap against RFKickMap, the
 // modulation queue under apply/flush schedules, __calcModulation with a known PRNG seed, and
 // RFKickMap::_calcKick.  Private members are only read, with two exceptions that the case kinds
@@ -157,8 +166,8 @@ static void do_sched()
     std::copy(data.begin(), data.end(), din->getData());
     auto d = mkdyn(a, din, dout);
     if (seed) {
-        d->_prng.seed(seed);
-        d->_dist.reset();
+        unconst(d->_prng).seed(seed);
+        unconst(d->_dist).reset();
         d->_next_modulation = d->__calcModulation(a.steps);
     }
     auto ref = mkstatic(a, rin, rout);
@@ -203,8 +212,8 @@ static void do_calcmod()
     unsigned long seed = strtoul(next().c_str(), nullptr, 10);
     auto din = mk(a), dout = mk(a);
     auto d = mkdyn(a, din, dout);
-    d->_prng.seed(seed);
-    d->_dist.reset();
+    unconst(d->_prng).seed(seed);
+    unconst(d->_dist).reset();
     auto q = d->__calcModulation(a.steps);
     std::mt19937 g(seed);
     std::normal_distribution<meshaxis_t> nd(0, 1);
